@@ -218,6 +218,11 @@ impl<K> Policy<K> {
     }
 }
 
+/// the pinned region is empty, or it still holds an entry the owner refused to give up when the policy asked
+pub open spec fn trimmed<K, F: Fn(&K) -> bool>(p: &Policy<K>, remove: F) -> bool {
+    p.lru.seq(Region::Pinned).len() == 0
+        || exists|k: K| #![trigger p.lru.seq(Region::Pinned).contains(k)] p.lru.seq(Region::Pinned).contains(k) && remove.ensures((&k,), false)
+}
 /// NEVER EVICTS A PINNED ENTRY: a key the policy stops tracking was confirmed removed by the owner (remove(k) returned
 /// true, i.e. the entry was absent or un-pinned under the entry lock) ...
 pub open spec fn forgets_only_confirmed<K, F: Fn(&K) -> bool>(old_p: &Policy<K>, new_p: &Policy<K>, remove: F) -> bool {
@@ -321,6 +326,7 @@ pub broadcast group group_seq_facts {
 //@ head
         broadcast use group_seq_facts;
 //@ member attempt_to_trim_overflowing_pinned
+//@ text-sub self.lru.shuffle_tail_to_head(lru::Region::Pinned); => let ghost refused = *key; self.lru.shuffle_tail_to_head(lru::Region::Pinned); proof { assert(self.lru.seq(Region::Pinned).contains(refused)); assert(remove.ensures((&refused,), false)); }
 //@ sig
         requires old(self).inv(), forall|k: &K| #[trigger] remove.requires((k,))
         ensures
@@ -330,6 +336,9 @@ pub broadcast group group_seq_facts {
             forall|q: Region| q != Region::Pinned ==> #[trigger] final(self).lru.seq(q) == old(self).lru.seq(q),
             final(self).lru.seq(Region::Pinned).len() <= old(self).lru.seq(Region::Pinned).len(),
             forall|k: K| #[trigger] final(self).lru.seq(Region::Pinned).contains(k) ==> old(self).lru.seq(Region::Pinned).contains(k),
+            // PROGRESS (the "stays bounded" half in Poll mode): the trim stops only when the pinned region is empty or at a
+            // parked entry whose owner REFUSED to give it up in this very call -- released entries in front of it are gone
+            trimmed(final(self), remove),
 //@ head
         broadcast use group_seq_facts;
 //@ loop 0 inv
@@ -340,6 +349,7 @@ pub broadcast group group_seq_facts {
                 forall|q: Region| q != Region::Pinned ==> #[trigger] self.lru.seq(q) == old(self).lru.seq(q),
                 self.lru.seq(Region::Pinned).len() <= old(self).lru.seq(Region::Pinned).len(),
                 forall|k: K| #[trigger] self.lru.seq(Region::Pinned).contains(k) ==> old(self).lru.seq(Region::Pinned).contains(k),
+            ensures trimmed(self, remove),
             decreases self.lru.seq(Region::Pinned).len(),
 //@ loop 0 head
             broadcast use group_seq_facts;
@@ -508,6 +518,11 @@ impl<K, V, L: LifecycleListener<K, V>> TinyLFUInner<K, V, L> {
     ///   true  -- the map had no entry for k, or the LOCKED entry held a value the listener calls unpinned and exactly that
     ///            entry was removed (asked again under the entry lock, removed under the same lock);
     ///   false -- the locked entry held a value the listener calls pinned (it stays)
+    /// the parked (pinned) region is empty or still holds an entry whose owner, asked under the entry lock, called it pinned
+    pub open spec fn pinned_trimmed(&self, p: &Policy<K>) -> bool {
+        p.lru.seq(Region::Pinned).len() == 0
+            || exists|k: K| #![trigger p.lru.seq(Region::Pinned).contains(k)] p.lru.seq(Region::Pinned).contains(k) && self.owner_answers(k, false)
+    }
     pub open spec fn owner_answers(&self, k: K, b: bool) -> bool {
         if b { absent_ev(k) || exists|v: V| #![trigger seen_ev(k, v)] seen_ev(k, v) && !self.lifecycle_listener.pinned(k, v) && removed_ev(k, v) }
         else { exists|v: V| #![trigger seen_ev(k, v)] seen_ev(k, v) && self.lifecycle_listener.pinned(k, v) }
@@ -534,6 +549,9 @@ impl<K, V, L: LifecycleListener<K, V>> TinyLFUInner<K, V, L> {
             // NEVER EVICTS A PINNED ENTRY, over the whole pass (also the Poll-mode trim at its end): whatever the policy forgets
             // was given up by the owner under the entry lock, or removed by the owner itself
             self.forgets_only_released_or_removed(old(lock), final(lock)),
+            // STAYS BOUNDED in Poll mode: every maintenance pass ends with the parked region trimmed down to an entry its owner
+            // still reports as pinned (or empty) -- whichever thread runs the pass
+            self.unpin_strategy == UnpinStrategy::Poll ==> self.pinned_trimmed(final(lock)),
 //@ loop 0 inv
             invariant lock.inv(), lock.caps_same(old(lock)), self.parks_only_pinned(old(lock), lock),
                 self.forgets_only_released_or_removed(old(lock), lock),
